@@ -17,9 +17,7 @@ def sub(file, old, new, nth=None):
   return d
 
 
-SEEDED = [
-  # (id, properties observed to catch it)
-]
+from .seeded_catches import SEEDED  # (id, properties observed to catch it)
 
 MUTANTS = [
   # ---- R-BATCH / R-WORLD
